@@ -134,7 +134,10 @@ def gen_cov(rng, nprng, n):
 
 def gen_custom(rng, nprng, nmax):
     n = rng.choice([1, 2, 3, 4, rng.randint(1, nmax), rng.randint(1, nmax), rng.randint(5, max(5, nmax))])
-    zcmb = np.sort(nprng.uniform(0.01, 2.3, n))
+    # catalogue order: a supernova sample is listed in discovery order more often than by redshift
+    zcmb = nprng.uniform(0.01, 2.3, n)
+    if int(zcmb[0] * 1e6) % 3 == 0:
+        zcmb = np.sort(zcmb)
     zhel = zcmb + nprng.normal(0, 2e-3, n)
     zhel = np.maximum(zhel, 1e-3)
     cov, ckind = gen_cov(rng, nprng, n)
@@ -173,7 +176,9 @@ def gen_custom_large(rng, nprng):
     below the smallest float (var^N), the log-density is an ordinary number"""
     c = gen_custom(rng, nprng, 4)
     n = rng.randint(130, 200)
-    zcmb = np.sort(nprng.uniform(0.01, 2.3, n))
+    zcmb = nprng.uniform(0.01, 2.3, n)
+    if int(zcmb[0] * 1e6) % 2 == 0:
+        zcmb = np.sort(zcmb)
     zhel = np.maximum(zcmb + nprng.normal(0, 2e-3, n), 1e-3)
     var = nprng.uniform(0.03, 0.08, n) ** 2            # N * log10(var) < -330: det(cov) underflows, slogdet does not
     u = nprng.normal(0, 0.02, (n, 2))
